@@ -12,6 +12,11 @@ const maxMacroExpansionDepth = 256
 
 var macroExpansionDepth int
 
+// Set when the bound is hit: the expansions still pending further up are
+// abandoned as well (a definition that mentions a cyclic name twice would
+// otherwise be explored 2^depth times); cleared when the outermost one returns.
+var macroExpansionAborted bool
+
 type DataType string
 
 const (
@@ -561,12 +566,21 @@ func (imm *ImmExp) Eval(env Env) (Exp, bool) {
 			// A chain of definitions that leads back to itself (possible through
 			// wrappers the definition-time check cannot see into, e.g.
 			// `X EQU Y*2` / `Y EQU [X*2]`) would expand without end.
+			if macroExpansionAborted {
+				return imm, false
+			}
 			if macroExpansionDepth >= maxMacroExpansionDepth {
 				log.Printf("error: EQU %s: definitions nest deeper than %d levels (cyclic definition?)", identValue, maxMacroExpansionDepth)
+				macroExpansionAborted = true
 				return imm, false
 			}
 			macroExpansionDepth++
-			defer func() { macroExpansionDepth-- }()
+			defer func() {
+				macroExpansionDepth--
+				if macroExpansionDepth == 0 {
+					macroExpansionAborted = false
+				}
+			}()
 			// マクロ定義を再帰的に評価します
 			// マクロ自体が評価されることを確認します
 			evalMacroExp, reduced := macroExp.Eval(env)
